@@ -565,8 +565,15 @@ func (oc *objectCache) processExpr(info *types.Info, pkgPath string, expr ast.Ex
 	expr = astutil.Unparen(expr)
 	if obj := qualifiedIdentObject(info, expr); obj != nil {
 		item, errs := oc.get(obj)
-		if _, isFunc := obj.(*types.Func); isFunc {
+		switch obj := obj.(type) {
+		case *types.Func:
 			errs = atUse(exprPos, errs)
+		case *types.Var:
+			if !isProviderSetType(obj.Type()) {
+				// Some variable of another package (os.Stdout): what is
+				// wrong is its use here, not its declaration.
+				errs = atUse(exprPos, errs)
+			}
 		}
 		return item, mapErrors(errs, func(err error) error {
 			return notePosition(exprPos, err)
